@@ -225,6 +225,72 @@ def vocab_uses(ctx, rep, f, pname, allow_in):
     return n_sub
 
 
+def _row_helper_form(ctx, rep, s2e, builders):
+    """U6 when the row is built by a helper that returns it: ``[_row(index, size=len(vocab)) for index in labels]`` (or the
+    same call in a for loop).  The helper's body must be: fresh ``[0] * W``, exactly one store ``row[I] = 1``, return row --
+    with I and W parameters -- and at the call I is the loop variable and W is len(<vocabulary>)."""
+    done = False
+    for bf, vname in builders:
+        for site in ctx.cg.sites(bf):
+            if not isinstance(site.node, ast.Call) or len(site.callees) != 1:
+                continue
+            h = site.callees[0]
+            if h.module is not s2e.module or h.cls is not None or h is bf:
+                continue
+            body = [st for st in h.node.body if not (isinstance(st, ast.Expr) and isinstance(st.value, ast.Constant))]
+            if len(body) != 3 or not isinstance(body[0], ast.Assign) or not isinstance(body[2], ast.Return):
+                continue
+            a0 = body[0]
+            if not (isinstance(a0.targets[0], ast.Name) and isinstance(a0.value, ast.BinOp) and isinstance(a0.value.op, ast.Mult)):
+                continue
+            r = a0.targets[0].id
+            lst, cnt = a0.value.left, a0.value.right
+            if isinstance(cnt, ast.List):
+                lst, cnt = cnt, lst
+            probs = []
+            if not (isinstance(lst, ast.List) and len(lst.elts) == 1 and isinstance(lst.elts[0], ast.Constant) and lst.elts[0].value == 0):
+                probs.append("row is not initialised with zeros")
+            st1 = body[1]
+            if not (isinstance(st1, ast.Assign) and isinstance(st1.targets[0], ast.Subscript) and isinstance(st1.targets[0].value, ast.Name)
+                    and st1.targets[0].value.id == r and isinstance(st1.value, ast.Constant) and st1.value.value == 1
+                    and isinstance(st1.targets[0].slice, ast.Name) and st1.targets[0].slice.id in h.params):
+                probs.append("not exactly one store of 1 at the index parameter")
+                ip = None
+            else:
+                ip = st1.targets[0].slice.id
+            if not (isinstance(body[2].value, ast.Name) and body[2].value.id == r):
+                probs.append("the helper does not return the row it built")
+            # bind the call
+            bound = {}
+            for i, a in enumerate(site.node.args):
+                if i < len(h.posparams):
+                    bound[h.posparams[i]] = a
+            for kw in site.node.keywords:
+                if kw.arg in h.params:
+                    bound[kw.arg] = kw.value
+            w_ok = False
+            if isinstance(cnt, ast.Name) and cnt.id in bound:
+                w_ok = unparse(bound[cnt.id]) == "len(%s)" % vname
+            elif isinstance(cnt, ast.Call) and unparse(cnt.func) == "len" and isinstance(cnt.args[0], ast.Name) and cnt.args[0].id in bound:
+                w_ok = unparse(bound[cnt.args[0].id]) == vname
+            if not w_ok:
+                probs.append("row width is not len(vocab)")
+            # the index argument is the variable of the loop / comprehension that contains the call
+            iv = None
+            for n in own_nodes(bf.node):
+                if isinstance(n, (ast.ListComp, ast.GeneratorExp)) and any(x is site.node for x in ast.walk(n.elt)) and len(n.generators) == 1 \
+                        and isinstance(n.generators[0].target, ast.Name):
+                    iv = n.generators[0].target.id
+                elif isinstance(n, ast.For) and any(x is site.node for st in n.body for x in ast.walk(st)) and isinstance(n.target, ast.Name):
+                    iv = n.target.id
+            if ip is not None and not (ip in bound and isinstance(bound[ip], ast.Name) and bound[ip].id == iv):
+                probs.append("the 1 is not stored at the label of the symbol the row belongs to")
+            rep.ob("U6", not probs, site.node, bf, construct="one-hot row built by %s" % h.name, how="fresh [0]*len(vocab) per symbol, one store of 1 at the label index",
+                   witness="; ".join(probs) or None, nontrivial=True, key="row/" + ("ok" if not probs else probs[0][:40]))
+            done = True
+    return done
+
+
 def run(ctx, rep):
     s2e = ctx.fn(EU + "selfies_to_encoding")
     e2s = ctx.fn(EU + "encoding_to_selfies")
@@ -308,6 +374,8 @@ def run(ctx, rep):
                 probs.append("row is not appended exactly once")
             rep.ob("U6", not probs, st, bf, construct="one-hot row %s" % r, how="fresh [0]*len(vocab) per symbol, one store of 1 at the label index",
                    witness="; ".join(probs) or None, nontrivial=True, key="row/" + ("ok" if not probs else probs[0][:40]))
+    if not found:
+        found = _row_helper_form(ctx, rep, s2e, builders)
     if not found:
         rep.ob("U6", False, s2e.node, s2e, construct="one-hot rows",
                witness="one-hot rows are not built as a fresh zero row per symbol (e.g. shared/cached row objects)", key="row/missing", nontrivial=True)
